@@ -38,7 +38,7 @@ def run(ctx, n_override=None):
             broken("harness build failed", mode=mode); continue
         base = os.path.join(ctx.scratch, "c06" + mode)
         cases, impl, stats = base + ".in", base + ".impl", base + ".stats"
-        rc, out, err = ctx.run([exe, "gen", str(n), cases, impl, stats, str(maxcoef), ctx.scratch], timeout=1500)
+        rc, out, err = ctx.run([exe, "gen", str(n), cases, impl, stats, str(maxcoef), ctx.scratch, "quotes"], timeout=1500)
         if rc != 0:
             ctx.tie_ok = False
             ctx.violation({"harness_rc": rc, "stderr": err[-3000:], "replay_cmd": replay_cmd},
@@ -82,7 +82,9 @@ def run(ctx, n_override=None):
                 rep = {"table": cur_line[:4000], "impl": i[:4000], "expected": exp[:4000], "replay_cmd": replay_cmd, "line": k + 1}
                 if flags.get("built") != "1": broken("harness could not build the table it generated", line=k + 1)
                 elif flags.get("werr") != "-": ctx.report("write-fails", rep, "write_fits%s failed on a well-formed table" % ("" if flags["backend"] == "disk" else "_mem"))
-                elif rb != exp: ctx.report("roundtrip-fields:" + first_diff(rb, exp), rep, "table read back differs from the table written (%s back end): %s" % (flags["backend"], first_diff(rb, exp)))
+                elif rb != exp:
+                    if padding_only(rb, exp, cur): broken("aux values read back with the right text but another number of trailing blanks than the FITS rule gives", impl=aux_diff(rb, cur)[:600], line=k + 1)
+                    else: ctx.report("roundtrip-fields:" + first_diff(rb, exp), rep, "table read back differs from the table written (%s back end): %s%s" % (flags["backend"], first_diff(rb, exp), aux_diff(rb, cur)))
                 elif flags.get("same_readers") != "1": ctx.report("readers-differ", rep, "read_fits and read_fits_mem return different tables for the same bytes")
                 elif flags.get("eq") != "1": ctx.report("operator==", rep, "table read back does not compare equal to the original")
                 elif int(flags.get("eval", "0")) < 1: ctx.report("evaluation-differs", rep, "table read back evaluates differently")
@@ -102,9 +104,11 @@ def run(ctx, n_override=None):
                 if mdump != idump or "same" not in ih:
                     broken("(b) Lean-encoded file: real reader vs model reader", variant=c, model=mdump[:600], impl=idump[:600], readers=ih, table=cur_line[:1500], line=k + 1)
                 exp = "ok " + F.dump_table(F.expected_after_roundtrip(cur, drop_ext=bool(vm & 1), drop_per=bool(vm & 2)))
-                if idump != exp:
+                if idump != exp and padding_only(idump, exp, cur):
+                    broken("aux values of a Lean-encoded file read with the right text but another number of trailing blanks than the FITS rule gives", impl=aux_diff(idump, cur)[:600], line=k + 1)
+                elif idump != exp:
                     ctx.report("independent-writer:" + first_diff(idump, exp), {"table": cur_line[:4000], "variant": c, "impl": idump[:4000], "expected": exp[:4000], "replay_cmd": replay_cmd},
-                               "a file in the documented layout (single ORDER key: %s, EXTENTS: %s, PERIODn: %s) written by an independent encoder is not read as the table it describes: %s" % (single, not vm & 1, not vm & 2, first_diff(idump, exp)))
+                               "a file in the documented layout (single ORDER key: %s, EXTENTS: %s, PERIODn: %s) written by an independent encoder is not read as the table it describes: %s" % (single, not vm & 1, not vm & 2, first_diff(idump, exp) + aux_diff(idump, cur)))
             elif w[0] == "F":
                 evals += 1
                 name = w[1]
@@ -155,6 +159,31 @@ def first_diff(a, b):
     except Exception:
         pass
     return "format"
+
+
+def padding_only(got, exp, written):
+    """the two dumps differ only in the number of trailing blanks of aux values, and C06's wording (value followed by
+    blanks only) still holds: a disagreement with the FITS padding rule, not with the property"""
+    try:
+        if got.split()[0] != "ok" or exp.split()[0] != "ok": return False
+        tg, te = F.parse_table(got.split()[1:]), F.parse_table(exp.split()[1:])
+        return all(tg[k] == te[k] for k in tg if k != "aux") and F.aux_only_blanks_gained(tg["aux"], written["aux"])
+    except Exception:
+        return False
+
+
+def aux_diff(got, written):
+    """the first auxiliary key that did not survive, in readable form"""
+    try:
+        if got.split()[0] != "ok": return ""
+        tg = F.parse_table(got.split()[1:])
+        if len(tg["aux"]) != len(written["aux"]): return " (%d keys written, %d read)" % (len(written["aux"]), len(tg["aux"]))
+        for (kr, vr), (kw, vw) in zip(tg["aux"], written["aux"]):
+            if kr != kw: return " (key %r read as %r)" % (kw, kr)
+            if not F.aux_only_blanks_gained([(kr, vr)], [(kw, vw)]): return " (key %s: wrote %r, read %r)" % (kw, vw, vr)
+    except Exception:
+        pass
+    return ""
 
 
 def replay(ctx, path):
